@@ -1263,6 +1263,8 @@ fn check_matching_pattern(
           abstract_pattern_nodes.push(pattern_matching::AbstractPatternNode::wildcard());
         }
       }
+      // Surplus elements have been reported above: the abstract pattern has one column per field.
+      abstract_pattern_nodes.truncate(fields.len());
       (
         pattern::MatchingPattern::Tuple(pattern::TuplePattern {
           location: *pattern_loc,
